@@ -706,6 +706,11 @@ def c19(tier):
         for k, (flag, s) in enumerate(cases[i:i + per]):
             # names stay distinct through a numeric prefix directory that is pure ASCII
             ents.append({"name": b"%d/" % k + s, "utf8": flag, "method": 0, "data": b"x", "fcomment": s})
+            # name and comment are decoded independently of each other's content: a pure-ASCII name with this comment,
+            # and this name with a pure-ASCII comment
+            if (i + k) % (1 if tier == "thorough" else 3) == 0:
+                ents.append({"name": b"%d/ascii-name" % k, "utf8": flag, "method": 0, "data": b"y", "fcomment": s})
+                ents.append({"name": b"%d/n/" % k + s, "utf8": flag, "method": 0, "data": b"z", "fcomment": b"ascii comment"})
         b, v = refzip.build({"entries": ents, "comment": b"c19"})
         scs.append({"sc": "d%05d" % i, "hex": b.hex(), "expect": gen_reader.expect_of(v), "decode": True, "max_entries": 200})
     rep.notes["decode_cases"] = len(cases)
@@ -2112,8 +2117,21 @@ def extract_archives(rnd, n, sbx_abs):
                 e["name"].decode("utf-8")
         except UnicodeDecodeError:
             continue
+        # the name in the local header may differ from the central one (a front-to-back reader writes files under the
+        # local names and applies modes under the central names; the seekable extractor only sees the central names)
+        if rnd.random() < 0.2:
+            for e in ents:
+                if rnd.random() < 0.6:
+                    e["lname"] = rnd.choice([b"/".join(rel(rnd.randint(1, 2))) + (b"/" if e["name"].endswith(b"/") else b""), rnd.choice(attacks)])
+                    if rnd.random() < 0.5:       # safe local name, hostile central name with a mode to apply
+                        e["lname"], e["name"] = (b"/".join(rel(2)) + (b"/" if e["name"].endswith(b"/") else b"")), rnd.choice(attacks[:7])
+                    try:
+                        e["lname"].decode("utf-8"), e["name"].decode("utf-8")
+                    except UnicodeDecodeError:
+                        e.pop("lname")
+            kind = "diverge"
         b, v = refzip.build({"entries": [{k2: v2 for k2, v2 in e.items() if not k2.startswith("_")} for e in ents]})
-        out.append((kind, b, [{"raw": list(e["name"]), "mode": e["_mode"], "data": [len(e["data"]), crc_hex(e["data"])]} for e in ents]))
+        out.append((kind, b, [{"raw": list(e["name"]), "lraw": list(e.get("lname", e["name"])), "mode": e["_mode"], "data": [len(e["data"]), crc_hex(e["data"])]} for e in ents]))
     return out
 
 
@@ -2121,12 +2139,12 @@ def c07(tier):
     rep = Report("C07", tier)
     wd = vlib.workdir("C07", tier)
     vlib.build_harness()
-    for cfg in (["MC_Extract.cfg", "MC_Extract3.cfg"] if tier == "quick" else ["MC_Extract.cfg", "MC_Extract3.cfg", "MC_Extract_full.cfg"]):
+    for cfg in (["MC_Extract.cfg", "MC_Extract3.cfg", "MC_Extract_div.cfg"] if tier == "quick" else ["MC_Extract.cfg", "MC_Extract3.cfg", "MC_Extract_div.cfg", "MC_Extract_full.cfg"]):
         r = vlib.tlc_mc("MC_Extract.tla", cfg, wd, timeout=1800, tag="mc-" + cfg[:-4])
         rep.add_mc(r, cfg)
         if r["error"]:
             rep.spec_violation(r, cfg)
-    for bug, inv in (("raw_name", "OutsideUntouched"), ("no_modes", "TreeExact")):
+    for bug, inv in (("raw_name", "OutsideUntouched"), ("no_modes", "TreeExact"), ("meta_unchecked", "OutsideUntouched")):
         r = vlib.tlc_mc("MC_Extract.tla", "MC_Extract_%s.cfg" % bug, wd, timeout=300, tag="mc-" + bug)
         found = bool(r["error"]) and inv in r["error"]
         rep.neg_controls.append({"spec_mutant": bug, "expected_violation": inv, "found": found})
@@ -2156,7 +2174,19 @@ def c07(tier):
                 ents.append({"name": nm, "utf8": True, "method": 0, "data": b"" if isdir else dt, "system": 3, "eattr": (mode << 16) if mode != -1 else 0, "_mode": mode})
             b, v = refzip.build({"entries": [{k2: v2 for k2, v2 in e.items() if not k2.startswith("_")} for e in ents]})
             scs.append({"sc": "m%02d-%02d" % (i, j), "hex": b.hex(), "sbx": sbx, "via": ["seek", "stream"], "abs_canary": "/zv_abs_canary",
-                        "entries": [{"raw": list(e["name"]), "mode": e["_mode"], "data": [len(e["data"]), crc_hex(e["data"])]} for e in ents]})
+                        "entries": [{"raw": list(e["name"]), "lraw": list(e["name"]), "mode": e["_mode"], "data": [len(e["data"]), crc_hex(e["data"])]} for e in ents]})
+    # local name safe, central name aimed at the canary (with a mode, so the permission phase has something to do), and vice versa
+    for i, (ln, cn) in enumerate([(b"a", b"../C/x"), (b"a", inner.encode() + b"/C/x"), (b"a/b", b"../C"), (b"../C/x", b"a"), (b"a", b"C"), (b"d/", b"../C/"), (b"a", b"a/../../C/x"),
+                                  (b"a", b"b"), (b"x/y", b"x/y")]):
+        for md in (0o100777, 0o100000, -1):
+            isdir = cn.endswith(b"/")
+            mode = (0o40777 if isdir else md) if md != -1 else -1
+            e = {"name": cn, "lname": ln, "utf8": True, "method": 0, "data": b"" if isdir else b"payload", "system": 3, "eattr": (mode << 16) if mode != -1 else 0}
+            other = {"name": b"other.txt", "utf8": True, "method": 8, "data": b"other " * 20, "system": 3, "eattr": 0o100644 << 16}
+            b, v = refzip.build({"entries": [other, e]})
+            scs.append({"sc": "dv%02d-%o" % (i, md & 0o7777 if md != -1 else 0), "hex": b.hex(), "sbx": sbx, "via": ["seek", "stream"], "abs_canary": "/zv_abs_canary",
+                        "entries": [{"raw": list(other["name"]), "lraw": list(other["name"]), "mode": 0o100644, "data": [len(other["data"]), crc_hex(other["data"])]},
+                                    {"raw": list(cn), "lraw": list(ln), "mode": mode, "data": [len(e["data"]), crc_hex(e["data"])]}]})
     rep.notes["archive_kinds"] = kinds
     progs = os.path.join(wd, "extract-scenarios.ndjson")
     trace = os.path.join(wd, "extract-trace.ndjson")
